@@ -109,7 +109,8 @@ Record ERel (p : epend) (st : wstate) (m : m14) : Prop := {
            (forall x, slab_get (sl st) x <> Some (HPipe q)) /\ on_pipe q (m14_lsend m) = [] /\ on_pipe q (m14_fwd m) = [] /\
            precvq (pps st q) = [] /\ ppanic (pps st q) = false /\ memZ q (m14_term m) = false /\ memZ q (m14_panic m) = false /\
            memZ q (m14_exited m) = false /\ (forall x, ~ In (q, x) (m14_lsdone m));
-  e_ins : forall q, (ufw q (mcont st) <> [] \/ hasterm q (mcont st) \/ (exists m0 d, In (ILock m0 (LPqHandler q d)) (mcont st))) ->
+  e_ins : forall q, ((exists m0 msgs tm, In (IUnlock m0 (UPqFwd q msgs tm)) (mcont st)) \/
+                     (exists m0 d, In (ILock m0 (LPqHandler q d)) (mcont st))) ->
           pexists (pps st q) = true;
   e_uniq : forall x y q, slab_get (sl st) x = Some (HPipe q) -> slab_get (sl st) y = Some (HPipe q) -> x = y;
   e_ls : forall u, wkr st u -> let q := tpipe (thr st u) in
@@ -350,8 +351,8 @@ Section EFrame.
     - intros q. rewrite Pe. intro H. destruct (e_exw _ _ _ R q H) as [u [A B]]. exists u. rewrite ef_wkr, Tp. auto.
     - intros q. rewrite Pe. intro Hq. destruct (NoEx q Hq) as [N1 N2].
       rewrite Esl, M2, M4, Pr, Pp, M5, M6, M7, M3, N1, N2, app_nil_r, orb_false_r. apply (e_noex _ _ _ R q Hq).
-    - intros q H. rewrite Pe. apply (e_ins _ _ _ R q). rewrite Uf in H. rewrite ef_hasterm in H.
-      destruct H as [H|[H|[m0 [d H]]]]; auto. right; right. exists m0, d. apply Hdl. exact H.
+    - intros q H. rewrite Pe. apply (e_ins _ _ _ R q).
+      destruct H as [[m0 [ms [tm H]]]|[m0 [d H]]]; [left; exists m0, ms, tm; apply Huf; exact H|right; exists m0, d; apply Hdl; exact H].
     - rewrite Esl. apply (e_uniq _ _ _ R).
     - intros u Hu. cbn zeta. rewrite Tp, M2, M4, Uf, Pr. apply ef_wkr in Hu. pose proof (e_ls _ _ _ R u Hu) as L. cbn zeta in L. rewrite L.
       destruct (Nat.eq_dec u t) as [->|Hne].
@@ -657,7 +658,7 @@ Proof.
   assert (Tps : forall u, tpushes (thr st' u) = tpushes (thr st u)).
   { intro u. unfold tpushes. rewrite Fi. destruct (Nat.eq_dec u main) as [->|Hu]; [rewrite Hc, Hc'; reflexivity|rewrite (Co u Hu); reflexivity]. }
   assert (Qex : pexists (pps st q) = true).
-  { apply (e_ins _ _ _ R q). right; right. exists m0, d. rewrite Hm. left. reflexivity. }
+  { apply (e_ins _ _ _ R q). right. exists m0, d. rewrite Hm. left. reflexivity. }
   assert (Qnt : memZ q (m14_term m) = false).
   { destruct (memZ q (m14_term m)) eqn:E; [|reflexivity]. exfalso. destruct (e_term _ _ _ R q E) as [_ [_ [C _]]]. apply (C m0 d). rewrite Hm. left. reflexivity. }
   assert (Ufq : forall q', ufw q' (mcont st') = (if q' =? q then msgs else []) /\ ufw q' (mcont st) = []).
@@ -684,9 +685,9 @@ Proof.
   - intros q0. rewrite Pe. intro Hq. assert (Nq : q0 <> q) by (intro E; subst q0; rewrite Qex in Hq; discriminate Hq).
     rewrite Esl, M2, M4, Pr, Pp, M5, M6, M7, M3. destruct (Z.eqb_spec q0 q); [contradiction|]. cbn [andb]. apply (e_noex _ _ _ R q0 Hq).
   - intros q0 H. rewrite Pe. destruct (Z.eq_dec q0 q) as [->|Nq]; [exact Qex|]. exfalso.
-    destruct (Ufq q0) as [U1 _]. destruct (Z.eqb_spec q0 q); [contradiction|].
-    destruct H as [H|[H|[m1 [d1 H]]]]; [apply H; exact U1|destruct (Htm _ H) as [Y _]; contradiction|].
-    rewrite Hm' in H. destruct H as [H|H]; [discriminate H|exact (Rh _ _ _ H)].
+    destruct H as [[m1 [ms [tm1 H]]]|[m1 [d1 H]]]; rewrite Hm' in H.
+    + destruct H as [H|H]; [unfold U in H; inversion H; subst; apply Nq; reflexivity|exact (Rf _ _ _ _ H)].
+    + destruct H as [H|H]; [discriminate H|exact (Rh _ _ _ H)].
   - rewrite Esl. apply (e_uniq _ _ _ R).
   - intros u Hu. cbn zeta. rewrite Tp, M2, M4, Pr. apply Wk in Hu. pose proof (e_ls _ _ _ R u Hu) as L. cbn zeta in L. rewrite L.
     rewrite (Co u (wkr_not_main _ _ X Hu)). destruct (Ufq (tpipe (thr st u))) as [U1 U2]. rewrite U1, U2.
@@ -729,6 +730,170 @@ Proof.
     unfold pb. destruct (memZ q (m14_panic m)) eqn:Em; destruct (ppanic (pps st q)) eqn:Epp; try reflexivity; exfalso.
     + destruct (proj1 Pn eq_refl) as [A|A]; [discriminate A|exact (NoP A)].
     + assert (A : false = true) by (apply Pn; left; reflexivity). discriminate A.
+  - intros u Hu. rewrite Tp, Tps. apply Wk in Hu. destruct (e_wprog _ _ _ R u Hu) as [A|A]; [left; exact A|right; apply Pg; exact A].
+  - intros q0. rewrite M7. intro H. apply Pg. apply (e_exited _ _ _ R q0 H).
+Qed.
+
+(** the monitor across the forwarding of a batch of replies *)
+Record r14_fwd (q : Z) (msgs : list Z) (m m' : m14) : Prop := {
+  rf_owner : m14_owner m' = m14_owner m; rf_lsend : m14_lsend m' = m14_lsend m; rf_lsdone : m14_lsdone m' = m14_lsdone m;
+  rf_fwd : m14_fwd m' = m14_fwd m ++ map (fun x => (q, x)) msgs; rf_term : m14_term m' = m14_term m;
+  rf_panic : m14_panic m' = m14_panic m; rf_exited : m14_exited m' = m14_exited m; rf_bad : m14_bad m' = false;
+  rf_nthr : b_nthr (m14_b m') = b_nthr (m14_b m) }.
+
+Lemma fwd_batch14 : forall msgs m q t c,
+  m14_bad m = false -> memZ q (m14_term m) = false ->
+  on_pipe q (m14_lsend m) = on_pipe q (m14_fwd m) ++ msgs ++ c ->
+  r14_fwd q msgs m (fold_left m14r_step (evs t (map (EFwdRecv q) msgs)) m).
+Proof.
+  induction msgs as [|x msgs IH]; intros m q t c Hb Ht Hl.
+  - cbn. constructor; try reflexivity; [rewrite app_nil_r; reflexivity|exact Hb].
+  - cbn [map evs fold_left]. fold (evs t (map (EFwdRecv q) msgs)).
+    set (m1 := m14r_step m (t, EFwdRecv q x)).
+    assert (F1 : m14_fwd m1 = m14_fwd m ++ [(q, x)]) by reflexivity.
+    assert (B1 : m14_bad m1 = false).
+    { unfold m1, m14r_step, m14_step. cbn. rewrite Hb, Ht. cbn. rewrite on_pipe_app, Hl. cbn. rewrite Z.eqb_refl. cbn.
+      replace (on_pipe q (m14_fwd m) ++ x :: msgs ++ c) with ((on_pipe q (m14_fwd m) ++ [x]) ++ msgs ++ c) by (rewrite <- app_assoc; reflexivity).
+      rewrite prefixZ_app. reflexivity. }
+    assert (N1 : b_nthr (m14_b m1) = b_nthr (m14_b m)).
+    { unfold m1. rewrite m14r_b_step. apply mb_nthr_nonret. intros v E. discriminate E. }
+    destruct (IH m1 q t c B1 Ht) as [A1 A2 A3 A4 A5 A6 A7 A8 A9].
+    { change (m14_lsend m1) with (m14_lsend m). rewrite F1, on_pipe_app, Hl. cbn. rewrite Z.eqb_refl, <- app_assoc. reflexivity. }
+    constructor; try (first [rewrite A1|rewrite A2|rewrite A3|rewrite A5|rewrite A6|rewrite A7]; reflexivity).
+    + rewrite A4, F1, <- app_assoc. reflexivity.
+    + exact A8.
+    + rewrite A9. exact N1.
+Qed.
+
+Lemma memZ_cons_other : forall q a l, a <> q -> memZ q (a :: l) = memZ q l.
+Proof. intros q a l H. unfold memZ. cbn. destruct (Z.eqb_spec a q); [contradiction|reflexivity]. Qed.
+Lemma memZ_cons_same : forall q l, memZ q (q :: l) = true.
+Proof. intros q l. unfold memZ. cbn. rewrite Z.eqb_refl. reflexivity. Qed.
+
+Lemma exec_ufwd_E : forall pd st m t m0 q msgs tm r st' ev,
+  CInv (core st) -> SlInv st -> PqInv st -> XInv st -> ERel pd st m ->
+  tcont (thr st t) = IUnlock m0 (UPqFwd q msgs tm) :: r -> exec_instr st t (IUnlock m0 (UPqFwd q msgs tm)) r = (st', ev) ->
+  ERel pd st' (fold_left m14r_step (evs t ev) m).
+Proof.
+  intros pd st m t m0 q msgs tm r st' ev I S Q X R Hc H.
+  assert (Tm : t = main).
+  { destruct (Nat.eq_dec t main) as [E|E]; [exact E|exfalso]. apply (e_hmain _ _ _ R t (IUnlock m0 (UPqFwd q msgs tm)) E); rewrite Hc; left; reflexivity. }
+  subst t.
+  assert (Hm : mcont st = IUnlock m0 (UPqFwd q msgs tm) :: r) by exact Hc.
+  assert (Rq : forall j, In j r -> hq j) by (intros j Hj; apply (e_hpos _ _ _ R _ r j Hm Hj)).
+  destruct (hq_list r Rq) as [Ru [Rt [Rh Rf]]].
+  destruct (exec_instr_eff _ _ _ _ _ _ I Hc H) as [F _ [Esl _] Hpipe _ _ _].
+  destruct F as [Hn [Hf Ho]].
+  assert (Tp : forall u, tpipe (thr st' u) = tpipe (thr st u)) by (intro u; apply Hf).
+  assert (Cu : forall u, tcur (thr st' u) = tcur (thr st u)) by (intro u; apply Hf).
+  assert (Fi : forall u, tfinal (thr st' u) = tfinal (thr st u)) by (intro u; apply Hf).
+  assert (Pl : forall y, In y (pipeline st') <-> In y (pipeline st)).
+  { intro y. rewrite Hpipe. split; [intros [A|[m1 [bm [h A]]]]; [exact A|discriminate A]|auto]. }
+  cbn [exec_instr exec_uact] in H.
+  assert (Hc' : tcont (thr st' main) = r) by (inversion H; subst st'; thr_simpl).
+  assert (Pps : pps st' = pps st) by (inversion H; subst st'; reflexivity).
+  assert (Ev : ev = EUnlock m0 :: map (EFwdRecv q) msgs ++ match tm with Some b => [ETerm q b] | None => [] end) by (inversion H; reflexivity).
+  clear H. subst ev.
+  assert (Hm' : mcont st' = r) by exact Hc'.
+  assert (Co : forall u, u <> main -> tcont (thr st' u) = tcont (thr st u)) by exact Ho.
+  assert (Wk : forall u, wkr st' u <-> wkr st u) by (intro u; unfold wkr; rewrite Hn, Tp; tauto).
+  assert (Tps : forall u, tpushes (thr st' u) = tpushes (thr st u)).
+  { intro u. unfold tpushes. rewrite Fi. destruct (Nat.eq_dec u main) as [->|Hu]; [rewrite Hc, Hc'; reflexivity|rewrite (Co u Hu); reflexivity]. }
+  assert (Qex : pexists (pps st q) = true).
+  { apply (e_ins _ _ _ R q). left. exists m0, msgs, tm. rewrite Hm. left. reflexivity. }
+  assert (Qnt : memZ q (m14_term m) = false).
+  { destruct (memZ q (m14_term m)) eqn:E; [|reflexivity]. exfalso. destruct (e_term _ _ _ R q E) as [_ [_ [_ [D _]]]]. apply (D m0 msgs tm). rewrite Hm. left. reflexivity. }
+  destruct (e_exw _ _ _ R q Qex) as [uq [Wq Eq]].
+  assert (Ufq : ufw q (mcont st) = msgs).
+  { rewrite Hm, (ufw_cons q _ r), Ru, app_nil_r. cbn. rewrite Z.eqb_refl. apply app_nil_r. }
+  assert (Ufo : forall q', q' <> q -> ufw q' (mcont st) = []).
+  { intros q' Nq. rewrite Hm, (ufw_cons q' _ r), Ru, app_nil_r. cbn. destruct (Z.eqb_spec q q'); [exfalso; apply Nq; auto|reflexivity]. }
+  (* the monitor *)
+  change (evs main (EUnlock m0 :: map (EFwdRecv q) msgs ++ match tm with Some b => [ETerm q b] | None => [] end))
+    with ((main, EUnlock m0) :: evs main (map (EFwdRecv q) msgs ++ match tm with Some b => [ETerm q b] | None => [] end)).
+  cbn [fold_left]. rewrite evs_app, fold_left_app.
+  set (ma := m14r_step m (main, EUnlock m0)).
+  assert (Sa : r14_same m ma) by (apply m14r_plain_step; exact Logic.I).
+  destruct Sa as [A1 A2 A3 A4 A5 A6 A7 A8 A9].
+  pose proof (e_ls _ _ _ R uq Wq) as Lq. cbn zeta in Lq. rewrite Eq, Ufq in Lq.
+  destruct (fwd_batch14 msgs ma q main (precvq (pps st q) ++ lpend q (tcont (thr st uq)))) as [B1 B2 B3 B4 B5 B6 B7 B8 B9].
+  { rewrite A8. apply (e_bad _ _ _ R). }
+  { rewrite A5. exact Qnt. }
+  { rewrite A2, A4. exact Lq. }
+  set (mb := fold_left m14r_step (evs main (map (EFwdRecv q) msgs)) ma) in *.
+  set (m' := fold_left m14r_step (evs main match tm with Some b => [ETerm q b] | None => [] end) mb).
+  assert (Hterm : forall b, tm = Some b -> b = memZ q (m14_panic m)).
+  { intros b ->. apply (e_ufterm _ _ _ R m0 q msgs b). rewrite Hm. left. reflexivity. }
+  assert (M' : m14_owner m' = m14_owner m /\ m14_lsend m' = m14_lsend m /\ m14_lsdone m' = m14_lsdone m /\
+               m14_fwd m' = m14_fwd m ++ map (fun x => (q, x)) msgs /\
+               m14_term m' = (match tm with Some _ => [q] | None => [] end) ++ m14_term m /\
+               m14_panic m' = m14_panic m /\ m14_exited m' = m14_exited m /\ m14_bad m' = false /\
+               b_nthr (m14_b m') = b_nthr (m14_b m)).
+  { unfold m'. destruct tm as [b|]; cbn [evs map fold_left].
+    - unfold m14r_step, m14_step. cbn. rewrite B1, B2, B3, B4, B5, B6, B7, B8, A1, A2, A3, A4, A5, A6, A7, Qnt, (Hterm b eq_refl).
+      rewrite Bool.eqb_reflx. cbn. repeat split; try reflexivity.
+      rewrite <- A9, <- B9. destruct (get_tid main (b_cur (m14_b mb))); [reflexivity|destruct (memT main (b_exit (m14_b mb))); reflexivity].
+    - rewrite B1, B2, B3, B4, B5, B6, B7, B8, B9, A1, A2, A3, A4, A5, A6, A7, A9. repeat split; reflexivity. }
+  clearbody m'. clear B1 B2 B3 B4 B5 B6 B7 B8 B9 A1 A2 A3 A4 A5 A6 A7 A8 A9. clearbody mb ma.
+  destruct M' as [M1 [M2 [M3 [M4 [M5 [M6 [M7 [M8 M9]]]]]]]].
+  assert (Fq : on_pipe q (m14_fwd m') = on_pipe q (m14_fwd m) ++ msgs) by (rewrite M4, on_pipe_app, on_pipe_map_same; reflexivity).
+  assert (Fo : forall q', q' <> q -> on_pipe q' (m14_fwd m') = on_pipe q' (m14_fwd m)).
+  { intros q' Nq. rewrite M4, on_pipe_app, on_pipe_map_other, app_nil_r by (intro E; apply Nq; auto). reflexivity. }
+  assert (Tq : forall q', q' <> q -> memZ q' (m14_term m') = memZ q' (m14_term m)).
+  { intros q' Nq. rewrite M5. destruct tm; [apply memZ_cons_other; intro E; apply Nq; auto|reflexivity]. }
+  assert (Tmono : forall q', memZ q' (m14_term m) = true -> memZ q' (m14_term m') = true).
+  { intros q' H. rewrite M5. destruct tm; [cbn [app]; apply memZ_cons12; exact H|exact H]. }
+  assert (Pg : forall q', prog14 st m q' -> prog14 st' m' q').
+  { intros q' [A|[[x [A B]]|[A|A]]].
+    - left. apply Tmono. exact A.
+    - right; left. exists x. rewrite Pl, Esl. auto.
+    - exfalso. rewrite Hm in A. destruct A as [A|A]; [discriminate A|exact (Rh _ _ _ A)].
+    - destruct A as [m1 [ms [b Hin]]]. rewrite Hm in Hin. destruct Hin as [E|Hin]; [|exfalso; exact (Rf _ _ _ _ Hin)].
+      inversion E; subst. left. rewrite M5. cbn [app]. apply memZ_cons_same. }
+  constructor.
+  - exact M8.
+  - rewrite M9, Hn. apply (e_nthr _ _ _ R).
+  - intros t0 q0 E. rewrite M9, Tp, !Cu. destruct (e_sp _ _ _ R t0 q0 E) as [A [B C]]. split; [exact A|]. split; [exact B|].
+    destruct (Nat.eq_dec t0 main) as [->|Ht0]; [rewrite Hc in C; discriminate C|rewrite Co; auto].
+  - intros u q0. rewrite M1, M9, Tp. apply (e_owner _ _ _ R).
+  - intros u u'. rewrite !Wk, !Tp. apply (e_wuniq _ _ _ R).
+  - intros u. rewrite Wk, Tp, Pps. apply (e_wex _ _ _ R).
+  - intros q0. rewrite Pps. intro H. destruct (e_exw _ _ _ R q0 H) as [u [A B]]. exists u. rewrite Wk, Tp. auto.
+  - intros q0. rewrite Pps. intro Hq. assert (Nq : q0 <> q) by (intro E; subst q0; rewrite Qex in Hq; discriminate Hq).
+    rewrite Esl, M2, (Fo q0 Nq), (Tq q0 Nq), M6, M7, M3. apply (e_noex _ _ _ R q0 Hq).
+  - intros q0 H. exfalso. rewrite Hm' in H. destruct H as [[m1 [ms [tm1 H]]]|[m1 [d1 H]]]; [exact (Rf _ _ _ _ H)|exact (Rh _ _ _ H)].
+  - rewrite Esl. apply (e_uniq _ _ _ R).
+  - intros u Hu. cbn zeta. rewrite Tp, M2, Pps, Hm', Ru. apply Wk in Hu. pose proof (e_ls _ _ _ R u Hu) as L. cbn zeta in L. rewrite L.
+    rewrite (Co u (wkr_not_main _ _ X Hu)). destruct (Z.eq_dec (tpipe (thr st u)) q) as [E|E].
+    + rewrite E, Fq, Ufq, <- !app_assoc. reflexivity.
+    + rewrite (Fo _ E), (Ufo _ E). reflexivity.
+  - intros u x Hu. rewrite Cu, Tp, M2. apply Wk in Hu. apply (e_lscur _ _ _ R u x Hu).
+  - intros q0 x. rewrite M3, Pps, Hm', Ru. intro H. apply (e_lsdone _ _ _ R) in H. destruct (Z.eq_dec q0 q) as [->|E].
+    + rewrite Fq, Ufq in *. rewrite <- app_assoc. exact H.
+    + rewrite (Fo _ E). rewrite (Ufo _ E) in H. exact H.
+  - intros q0 H. rewrite Esl, Pps, Hm'.
+    assert (Z0 : (forall x, slab_get (sl st) x <> Some (HPipe q0)) /\ (forall u x, ~ In (x, HPipe q0) (tpushes (thr st u))) /\ precvq (pps st q0) = []).
+    { destruct (Z.eq_dec q0 q) as [->|Nq].
+      - destruct tm as [b|]; [|rewrite M5 in H; cbn [app] in H; rewrite Qnt in H; discriminate H].
+        apply (e_hterm _ _ _ R q). exists m0, msgs, b. rewrite Hm. left. reflexivity.
+      - rewrite (Tq q0 Nq) in H. destruct (e_term _ _ _ R q0 H) as [A [B [_ [_ E]]]]. auto. }
+    destruct Z0 as [Z1 [Z2 Z3]]. split; [exact Z1|]. split; [intros u x; rewrite Tps; apply Z2|].
+    split; [intros m1 d1 Hin; exact (Rh _ _ _ Hin)|]. split; [intros m1 ms tm1 Hin; exact (Rf _ _ _ _ Hin)|exact Z3].
+  - intros m1 q0 Hin. exfalso. rewrite Hm' in Hin. exact (Rh _ _ _ Hin).
+  - intros q0 Hin. exfalso. rewrite Hm' in Hin. exact (Rt _ Hin).
+  - intros i0 r0 j E Hj. rewrite Hm' in E. apply Rq. rewrite E. right. exact Hj.
+  - intros u j Hu Hj. rewrite (Co u Hu) in Hj. apply (e_hmain _ _ _ R u j Hu Hj).
+  - intros u Hu. cbn zeta. rewrite Tp, M6, Pps, Fi, Hm'. apply Wk in Hu. rewrite (Co u (wkr_not_main _ _ X Hu)). intros H1 _.
+    destruct (Z.eq_dec (tpipe (thr st u)) q) as [E|E].
+    + rewrite E in *. destruct tm as [b|]; [rewrite M5 in H1; cbn [app] in H1; rewrite memZ_cons_same in H1; discriminate H1|].
+      pose proof (e_panic _ _ _ R u Hu) as Pn. cbn zeta in Pn. rewrite E in Pn. apply Pn; [exact Qnt|].
+      intros [m1 [ms [b Hin]]]. rewrite Hm in Hin. destruct Hin as [E0|Hin]; [discriminate E0|exact (Rf _ _ _ _ Hin)].
+    + rewrite (Tq _ E) in H1. apply (e_panic _ _ _ R u Hu H1).
+      intros [m1 [ms [b Hin]]]. rewrite Hm in Hin. destruct Hin as [E0|Hin]; [injection E0 as E1 E2 E3 E4; apply E; symmetry; exact E2|exact (Rf _ _ _ _ Hin)].
+  - intros u q0 m1 a b E. rewrite Fi in E. rewrite Wk, Tp.
+    destruct (Nat.eq_dec u main) as [->|Hu]; [|rewrite (Co u Hu) in E; apply (e_porder _ _ _ R u q0 m1 a b E)].
+    rewrite Hc' in E. apply (e_porder _ _ _ R main q0 m1 (IUnlock m0 (UPqFwd q msgs tm) :: a) b). rewrite Hc. cbn. f_equal. exact E.
+  - intros m1 q0 ms b Hin. exfalso. rewrite Hm' in Hin. exact (Rf _ _ _ _ Hin).
   - intros u Hu. rewrite Tp, Tps. apply Wk in Hu. destruct (e_wprog _ _ _ R u Hu) as [A|A]; [left; exact A|right; apply Pg; exact A].
   - intros q0. rewrite M7. intro H. apply Pg. apply (e_exited _ _ _ R q0 H).
 Qed.
